@@ -10,8 +10,12 @@ TECHNIQUE = "Coq proof (decoder total: fuel never exhausted; depth and allocatio
 LEVEL_TEXT = ("Proved in Coq for the DAG-CBOR/CBOR decoder model (all configurations, all byte strings): it terminates with a value or an "
               "error (the out-of-fuel outcome is unreachable; every Go panic site of the modelled code is an explicit error branch), the "
               "accepted value is within MaxDepth, and the allocation ledger cost(v) (declared lengths + per-entry costs + content "
-              "lengths, constants regenerated from unmarshal.go) is within AllocationBudget. Partial: the other entry points (DAG-JSON, "
-              "JSON, raw decoders; typed assemblers of bindnode and generated code; path parsing) and the "
+              "lengths, constants regenerated from unmarshal.go) is within AllocationBudget. Likewise for the DAG-JSON / JSON decoder "
+              "model (coq/Codec/DagJson.v: refmt tokenizer + look-ahead window + Decode; all options, all byte strings, any ParseFloat / "
+              "cid.Decode): C10_json_decode_total (out-of-fuel and stale-window outcomes unreachable, measure = buffered tokens + unread "
+              "bytes) and C10_json_decode_bounded (depth within MaxDepth, at most one node per input byte; the decoder has no allocation "
+              "budget), tied by exact prediction of class and depth on every dagjson/json record. Partial: the other entry points (raw "
+              "decoder; typed assemblers of bindnode and generated code; path parsing) and the "
               "real allocation volume are exercised on the real code on every run (recover()-wrapped, runtime.MemStats) rather than "
               "proved. Selectors: proved for the traversal model (Trav/Selector.v, Walk.v) that compilation ends in a selector or an "
               "error for every value and that the walk of any selector over any cycle-free graph with the explicit fuel walk_fuel "
@@ -19,10 +23,11 @@ LEVEL_TEXT = ("Proved in Coq for the DAG-CBOR/CBOR decoder model (all configurat
               "refuted as unbounded (C10_compile_range_alloc_refuted); the model is tied to selector.CompileSelector / WalkAdv / "
               "WalkMatching by the c10sel run (mutated declarations, extreme integers, degenerate recursion).")
 LEVEL_NOTE = ("Trusted: Coq kernel, extraction, gotrans, Go harness. Partial: real allocation is measured (TotalAlloc) against "
-              "128*budget + 256*len + 1 MiB, not proved; typed assemblers and JSON decoders are only run, not modelled here.")
+              "128*budget + 256*len + 1 MiB, not proved; typed assemblers and the raw decoder are only run, not modelled here.")
 TRUSTED = ["refmt v0.90 CBOR tokenizer and go-cid: hand-modelled; tied by correspondence only",
            "runtime.MemStats.TotalAlloc as the measure of real allocation; bound 128*budget + 256*input length + 1 MiB (128 B covers a basicnode map entry claimed by a header)",
-           "typed assemblers (bindnode, gendemo) and the JSON/raw decoders are exercised for panics and depth, not modelled in this cluster"]
+           "typed assemblers (bindnode, gendemo) and the raw decoder are exercised for panics and depth, not modelled",
+           "refmt v0.90 JSON tokenizer, encoding/base64, strconv.ParseFloat (OCaml float_of_string in the driver) and cid.Decode (table from the harness): hand-modelled / quantified in coq/Codec/DagJson.v; tied by the exact class+depth prediction on every dagjson/json record and by C04's correspondence run"]
 RULE = ("typed targets: schema-shaped seed documents, tree-level and byte/text-level mutations through dag-cbor and dag-json; generic target: "
         "structured near-valid CBOR and its mutations over strict/relaxed x links x stop-at-end x budget x depth x prealloc cap, JSON texts and "
         "their mutations, raw; hostile length claims with allocation measured; path strings. distinct = distinct input fields; "
@@ -44,7 +49,7 @@ def classify(fs):
 SEL_COUNTS = {"quick": 1200, "thorough": 60000}
 
 
-def extra(ctx):
+def _extra_selectors(ctx):
     """Selector compilation and selector walks (harness/cmd/c10sel): declarations from the grammar generator, their
     mutations, extreme integers, degenerate recursion; every declaration that compiles is walked (WalkAdv and
     WalkMatching, recover()-wrapped) over generated graphs.  The extracted traversal model (cluster trav, driver
@@ -121,3 +126,69 @@ def extra(ctx):
              "ok": bool(order) and not unknown,
              "info": {"cases": len(order), "agree": agree, "skipped": skipped, "failures": len(fails), "by_compile_class": dist},
              "failures": fails[:60]}]
+
+
+# ---------------------------------------------------------------------------- dag-json clause (json cluster)
+def _extra_json(ctx):
+    """DAG-JSON tie of C10_json_decode_total / _bounded: harness/cmd/c10 writes, next to cases.txt, one "j" record for
+    every dagjson/json decode into the basic target (same input, same observation, plus the cid.Decode table of the
+    input's string tokens).  The extracted DAG-JSON decoder model (cluster json, driver c04_driver) must predict the
+    accept/reject class (ok / err:depth / err:other) and the nesting depth of the accepted value exactly; a panic of
+    the real decoder is json_decode_panic, any disagreement json_model_mismatch."""
+    import os, subprocess
+    from vlib import core
+    from vlib.props import c04 as js
+    name = "dag-json: accept/reject class and depth of every dagjson/json decode as the extracted decoder model predicts"
+    jpath = os.path.join(ctx.rundir, "cases.txt.j")
+    if not os.path.exists(jpath):
+        return [{"name": name, "ok": False, "info": "c10 harness wrote no dag-json tie records (cases.txt.j)"}]
+    with core.Lock():
+        mok, mmsg = core.build_model(js.CLUSTER, js.EXTRACT_V, [js.DRIVER], js.MODEL_DEPS)
+    if not mok:
+        return [{"name": name, "ok": False, "info": "json model does not build: " + mmsg.strip()[:400]}]
+    drv = os.path.join(core.BUILD, "ml", js.CLUSTER, js.DRIVER)
+    mpath = os.path.join(ctx.rundir, "json_model.txt")
+    with open(jpath, "rb") as fi, open(mpath, "wb") as fo:
+        try:
+            p = subprocess.run([drv], stdin=fi, stdout=fo, stderr=subprocess.PIPE, timeout=3600)
+        except subprocess.TimeoutExpired:
+            return [{"name": name, "ok": False, "info": "json model driver timeout"}]
+    if p.returncode != 0:
+        return [{"name": name, "ok": False, "info": "json model driver failed: " + p.stderr.decode("utf8", "replace")[-400:]}]
+    cases, order = {}, []
+    for line in open(jpath, errors="replace"):
+        fs = line.rstrip("\n").split("\t")
+        if len(fs) >= 7:
+            cases[fs[0]] = fs
+            order.append(fs[0])
+    model = {}
+    for line in open(mpath, errors="replace"):
+        fs = line.rstrip("\n").split("\t")
+        if len(fs) >= 3:
+            model[fs[0]] = fs
+    fails, agree, dist = [], 0, {}
+    for cid in order:
+        fs = cases[cid]
+        k = fs[2] + ":" + fs[-1].split("|")[0]
+        dist[k] = dist.get(k, 0) + 1
+        short = [f if len(f) <= 600 else f[:600] + "...(%d chars)" % len(f) for f in fs]
+        m = model.get(cid)
+        if m is None:
+            fails.append({"case": short, "classes": ["json_model_mismatch"], "verdict": "fail:json_model_mismatch", "model": None})
+        elif m[2].startswith("fail:"):
+            fails.append({"case": short, "classes": m[2][5:].split(","), "verdict": m[2], "model": m[1]})
+        elif m[1] != fs[-1]:
+            fails.append({"case": short, "classes": ["json_model_mismatch"], "verdict": "fail:json_model_mismatch", "model": m[1]})
+        else:
+            agree += 1
+    known = {k["class"] for k in ctx.known if k.get("status") == "known"}
+    unknown = [f for f in fails if [c for c in f["classes"] if c not in known]]
+    fails = unknown + [f for f in fails if f not in unknown]
+    return [{"name": name + " (%d records)" % len(order),
+             "ok": bool(order) and not unknown,
+             "info": {"cases": len(order), "agree": agree, "failures": len(fails), "by_codec_and_class": dist},
+             "failures": fails[:60]}]
+
+
+def extra(ctx):
+    return _extra_selectors(ctx) + _extra_json(ctx)
